@@ -23,7 +23,7 @@ _m(
         "connected components come from the harness (scipy.sparse.csgraph on its own pixel-pair list, cross-checked "
         "against scipy.ndimage.label on bounded grids), never from quantem",
         "tolerance 1e-4*(1+max|k|) rad for 'constant' and twice that for 'integer multiple of 2pi' (two pixels' errors): "
-        "quantem adds float32(2*pi*k); measured clean-tree error <= 1.1e-6*(1+max|k|); a wrong unwrap is off by 2*pi",
+        "quantem adds float32(2*pi*k); measured clean-tree error <= 1.3e-6*(1+max|k|); a wrong unwrap is off by 2*pi",
         "values outside the mask are finite (wrapped field, zeros as the real caller passes, or noise); for already-"
         "unwrapped input they stay within the in-mask value range so the global-mean subtraction cannot cancel in float32",
         "no claim is checked on pixels outside the mask; the Poisson solver is outside the exactness claim",
